@@ -70,7 +70,7 @@ theorem shared_language_read_only_by_legacy_formatter :
     package-level variable (a cache, a pool, a registry) is shared by every VM and has to be argued for here. -/
 theorem package_level_state_is_known :
     globals.map (fun g => g.1) =
-      ["ErrorFormatter", "binOperator", "builtinProto", "builtinValues", "errInvalidEncoding", "errInvalidEntrypoint", "errMaxExprCnt",
+      ["ErrorFormatter", "binOperator", "builtinProto", "builtinValues", "errInvalidEncoding", "errInvalidEntrypoint", "errMaxExprCnt", "errMaxParseDepth",
        "errMsgs", "errNoRule", "expungedValueMap", "g", "nnf", "parseErrorLanguage", "randSource", "randSourceMu"] := by decide
 
 /-- REGENERATED FACT: the package-level random source is only used by Roll (fallback for unseeded contexts) and
